@@ -3,8 +3,10 @@
    Model/Directives.v (insertWordBreaks, changeNewlineToBr, truncate,
    url.QueryEscape), Model/JsEscape.v (template.JSEscapeString, json.Marshal of
    a string); decoders: Spec/Codec.v, Spec/Html.v. *)
-From Soy Require Import Model.Bytes Generated.Tables Model.Utf8 Model.Outcome Model.Escape Model.Directives Model.JsEscape
-  Spec.Html Spec.Codec Proofs.Utf8Proofs Proofs.CodecProofs.
+From Soy Require Import Proofs.SourceTieDirectives.
+From Soy Require Import Model.Bytes Generated.Tables Model.Utf8 Model.Num Model.Outcome Model.Values Model.Escape Model.Directives Model.JsEscape
+  Model.JsonEncode Spec.Html Spec.Codec Spec.Json Proofs.Utf8Proofs Proofs.CodecProofs Proofs.CodecJsPair Proofs.CodecJsonNum Proofs.CodecJson Proofs.CodecJsonInert
+  Model.JsDirectives Spec.JsUnits Proofs.CodecJsUnits Proofs.CodecJsAgree.
 Open Scope N_scope.
 
 (* ---------------- escapeUri ---------------- *)
@@ -137,6 +139,49 @@ Theorem C16_jsstr_astral_refuted :
 Proof. exact jsstr_astral_refuted. Qed.
 Print Assumptions C16_jsstr_astral_refuted.
 
+(* ---- the escaper soy calls (Model/JsEscape.v js_escape_soy): text/template's, or -- once the repair
+   notes/pending/C16-jsstr-astral-surrogate-pair.diff is applied -- internal/jsescape, which writes a
+   non-printable rune above U+FFFF as its surrogate pair.  Which one the tree under test calls is
+   regenerated from its source (Generated/Tables.v jsstr_pair_html). ---- *)
+
+(* the directive as the tree under test implements it: the guard is needed only while the library is called *)
+Theorem C16_jsstr_roundtrip_soy : forall s,
+  (jsstr_pair_html = true \/ Forall (fun r => r < 65536 \/ is_print_tbl r = true) (runes s)) -> utf8_valid s = true ->
+  js_read_literal (js_escape_soy jsstr_pair_html is_print_tbl s) = Some s.
+Proof.
+  intros s Hg Hv. apply (jsstr_roundtrip_soy_q jsstr_pair_html is_print_tbl is_print_tbl_ls is_print_tbl_ps 39 (or_introl eq_refl)); [exact Hv|].
+  destruct Hg as [Hp|Hg]; [apply Forall_forall; intros; left; exact Hp|].
+  eapply Forall_impl; [|exact Hg]. intros r Hr. right. exact Hr.
+Qed.
+Print Assumptions C16_jsstr_roundtrip_soy.
+
+(* the FULL statement, without the BMP-or-printable guard, for the repaired escaper *)
+Theorem C16_jsstr_roundtrip_repaired : forall s, utf8_valid s = true ->
+  js_read_literal (js_escape_soy true is_print_tbl s) = Some s.
+Proof. exact jsstr_roundtrip_repaired. Qed.
+Print Assumptions C16_jsstr_roundtrip_repaired.
+
+Theorem C16_jsstr_roundtrip_repaired_double_quotes : forall s, utf8_valid s = true ->
+  js_read_literal_q 34 (js_escape_soy true is_print_tbl s) = Some s.
+Proof. exact jsstr_roundtrip_repaired_dq. Qed.
+Print Assumptions C16_jsstr_roundtrip_repaired_double_quotes.
+
+Theorem C16_jsstr_soy_inert : forall pair is_print s, Forall js_inert (js_escape_soy pair is_print s).
+Proof. exact js_escape_soy_inert. Qed.
+Print Assumptions C16_jsstr_soy_inert.
+
+(* with pair = false it IS the library's escaper, so the theorems above about js_escape carry over *)
+Theorem C16_jsstr_soy_library : forall is_print s, js_escape_soy false is_print s = js_escape is_print s.
+Proof. exact js_escape_soy_false. Qed.
+Print Assumptions C16_jsstr_soy_library.
+
+(* the witness of the finding: U+F0000 z  ->  backslash-u DB80 backslash-u DC00 z, which reads back *)
+Example C16_jsstr_repaired_nonvacuous :
+  js_escape_soy true is_print_tbl [243; 176; 128; 128; 122] = [92; 117; 68; 66; 56; 48; 92; 117; 68; 67; 48; 48; 122]
+  /\ js_read_literal [92; 117; 68; 66; 56; 48; 92; 117; 68; 67; 48; 48; 122] = Some [243; 176; 128; 128; 122]
+  /\ utf8_valid [243; 176; 128; 128; 122] = true /\ is_print_tbl 983040 = false.
+Proof. vm_compute. repeat split; reflexivity. Qed.
+
 (* a, less-than, b, apostrophe, c, quote, backslash, LF, U+00A0, U+00E9, U+2028, U+1F600;
    the escapes xHH, backslash-slash and a surrogate pair are read *)
 Example C16_jsstr_nonvacuous :
@@ -171,6 +216,58 @@ Example C16_json_nonvacuous :
   /\ json_parse_string [34; 97] = None /\ json_parse_string [34; 10; 34] = None /\ json_parse_string [34; 97; 34; 98] = None.
 Proof. vm_compute. repeat split; reflexivity. Qed.
 
+(* ---------------- json (every value) ---------------- *)
+(* json.Marshal of a Soy value (Model/JsonEncode.v: null / bool / int64 / float64 of the exact printing
+   domain / string / list / map with sorted keys, at any nesting depth), read by the RFC 8259 reader of
+   Spec/Json.v, is the JSON value the Soy value denotes (jv_of_value: undefined and null are null, a
+   number is the exact decimal it denotes, collections keep their elements).  json_ok: strings and keys
+   are valid UTF-8, floats are normalised, keys strictly increase (the invariants of Model/Values.v), and
+   -- only while the tree writes a nil collection as null (Tables.json_nil_null) -- no collection is nil. *)
+Theorem C16_json_roundtrip : forall v s, json_ok json_nil_null v -> json_encode json_nil_null v = Ok s ->
+  exists j, jv_of_value v = Some j /\ json_parse s = Some j.
+Proof. exact (json_roundtrip json_nil_null). Qed.
+Print Assumptions C16_json_roundtrip.
+
+(* for both kinds of tree; nn = false (repair notes/pending/C16-json-nil-list.diff) has no nil clause *)
+Theorem C16_json_roundtrip_any_tree : forall nn v s, json_ok nn v -> json_encode nn v = Ok s ->
+  exists j, jv_of_value v = Some j /\ json_parse s = Some j.
+Proof. exact json_roundtrip. Qed.
+Print Assumptions C16_json_roundtrip_any_tree.
+
+(* the encoder gives a text for every value without NaN / infinities whose floats are in the exact printing domain *)
+Theorem C16_json_encode_total : forall nn v, json_finite v -> exists s, json_encode nn v = Ok s.
+Proof. exact json_encode_total. Qed.
+Print Assumptions C16_json_encode_total.
+
+(* HTML-safe at any depth: no raw < > & in the text of any value *)
+Theorem C16_json_inert : forall nn v s, json_encode nn v = Ok s -> Forall html_inert s.
+Proof. exact json_encode_inert. Qed.
+Print Assumptions C16_json_inert.
+
+(* numbers: an int64 (indeed any integer) and a float of the exact printing domain read back exactly *)
+Theorem C16_json_number_int : forall z rest, stop_num rest -> json_number (dec_of_Z z ++ rest) = Some (num_of_Z z, rest).
+Proof. exact json_number_int. Qed.
+Print Assumptions C16_json_number_int.
+
+Theorem C16_json_number_float : forall x s rest, fl_norm x -> fl_to_string_dom x = Some s -> stop_num rest ->
+  forall j, num_of_fl x = Some j -> json_number (s ++ rest) = Some (j, rest).
+Proof. exact json_number_float. Qed.
+Print Assumptions C16_json_number_float.
+
+(* {"a<":[-12,2.5,null,true,"x",[]],"b":{}} ; 2.5 is the number 25e-1 ; 1, 1.0 and 10e-1 are one number;
+   a nil list is null on a tree without the repair; malformed texts are rejected *)
+Example C16_json_value_nonvacuous :
+  let v := VMap 5 [([97; 60], VList 6 [VInt (-12); VFloat (FFin 5 (-1)); VNull; VBool true; VStr [120]; VList 1 []]); ([98], VMap 7 [])] in
+  json_ok true v
+  /\ json_encode true v = Ok (b "{""a\u003c"":[-12,2.5,null,true,""x"",[]],""b"":{}}")
+  /\ json_parse (b "{""a\u003c"":[-12,2.5,null,true,""x"",[]],""b"":{}}")
+      = Some (JvObj [([97; 60], JvArr [JvNum true 12 0; JvNum false 25 (-1); JvNull; JvBool true; JvStr [120]; JvArr []]); ([98], JvObj [])])
+  /\ jv_of_value v = json_parse (b "{""a\u003c"":[-12,2.5,null,true,""x"",[]],""b"":{}}")
+  /\ json_parse (b "1") = json_parse (b " 10e-1 ") /\ json_parse (b "1.0") = Some (JvNum false 1 0) /\ json_parse (b "-0") = Some (JvNum true 0 0)
+  /\ json_encode true (VList 0 []) = Ok (b "null") /\ json_encode false (VList 0 []) = Ok (b "[]")
+  /\ json_parse (b "[1,]") = None /\ json_parse (b "01") = None /\ json_parse (b "{""a"":1} x") = None /\ json_parse (b "1.") = None.
+Proof. vm_compute. repeat split; reflexivity. Qed.
+
 (* ---------------- chains ---------------- *)
 Theorem C16_chain_any_uri : forall (f : bstr -> bstr) s, Forall (fun c => c < 256) (f s) -> pct_decode (escape_uri (f s)) = Some (f s).
 Proof. exact chain_any_uri. Qed.
@@ -201,3 +298,85 @@ Theorem C16_chain_truncate_br : forall s n e out, truncate s n e = Ok out ->
   remove_tok br (change_newline_to_br out) = tmpl_html_escape (remove_newlines out).
 Proof. exact chain_truncate_br. Qed.
 Print Assumptions C16_chain_truncate_br.
+
+(* ---------------- the JavaScript counterparts (soyjs/lib/soyutils.js, over UTF-16 code units) ---------------- *)
+(* Model/JsDirectives.v; tied to node on every run (all 65536 single units + code-unit strings) *)
+
+(* soy.$$escapeJsString: between single or double quotes the escaped text denotes the value,
+   for EVERY code-unit string (lone surrogates included) *)
+Theorem C16_js_jsstr_roundtrip : forall q s, q = 39 \/ q = 34 -> jsu_read q (u_escape_js_string s) = Some s.
+Proof. exact u_jsstr_roundtrip. Qed.
+Print Assumptions C16_js_jsstr_roundtrip.
+
+Theorem C16_js_jsstr_inert : forall s, Forall u_js_inert (u_escape_js_string s).
+Proof. exact u_jsstr_inert. Qed.
+Print Assumptions C16_js_jsstr_inert.
+
+(* soy.$$escapeUri: safe alphabet, query-decodes to the UTF-8 form of the value; throws exactly on an unpaired surrogate *)
+Theorem C16_js_uri_roundtrip : forall s, Forall (fun c => c < 65536) s ->
+  match u_escape_uri s with
+  | Ok out => exists bs, units_utf8 s = Some bs /\ pct_decode out = Some bs /\ Forall u_uri_byte out
+  | Err _ => units_utf8 s = None
+  | _ => False
+  end.
+Proof. intros s. exact (u_uri_roundtrip (length s) s (le_n _)). Qed.
+Print Assumptions C16_js_uri_roundtrip.
+
+(* soy.$$truncate *)
+Theorem C16_js_truncate_fits : forall s n e, (Z.of_nat (length s) <= n)%Z -> u_truncate s n e = s.
+Proof. exact u_truncate_fits. Qed.
+Print Assumptions C16_js_truncate_fits.
+
+Theorem C16_js_truncate_spec : forall s n e, (n < Z.of_nat (length s))%Z ->
+  exists k : nat,
+    u_truncate s n e = take k s ++ (if trunc_ell n e then dots else [])
+    /\ (k <= length s)%nat
+    /\ (Z.of_nat k <= Z.max 0 (trunc_cut n e))%Z
+    /\ (0 <= n -> Z.of_nat (length (u_truncate s n e)) <= n)%Z
+    /\ (u_high_at s (Z.of_nat k - 1) && u_low_at s (Z.of_nat k) = false).
+Proof. exact u_truncate_cut. Qed.
+Print Assumptions C16_js_truncate_spec.
+
+(* what the generated code computes for changeNewlineToBr / insertWordBreaks: helper(soy.$$escapeHtml(x)) *)
+Theorem C16_js_br_only : forall s, remove_tok br (u_change_newline_to_br s) = u_escape_html (remove_newlines s).
+Proof. exact u_br_only. Qed.
+Print Assumptions C16_js_br_only.
+
+Theorem C16_js_wbr_only : forall s n, remove_tok wbr (u_insert_word_breaks s n) = u_escape_html s.
+Proof. exact u_wbr_only. Qed.
+Print Assumptions C16_js_wbr_only.
+
+(* no <wbr> inside a character reference, for every limit >= 1: the output is a concatenation of units,
+   each <wbr> or the whole escaped image of one code unit *)
+Theorem C16_js_wbr_units : forall s maxc, (1 <= maxc)%Z ->
+  exists us, Forall u_iwb_unit us /\ u_insert_word_breaks s maxc = concat_b us.
+Proof. exact u_wbr_units. Qed.
+Print Assumptions C16_js_wbr_units.
+
+(* the limit must be >= 1: with 0 the shim breaks inside the reference (outside the statement's
+   "in-range integer arguments"; the Go directive does not: it escapes rune by rune) *)
+Example C16_js_wbr_limit_zero :
+  u_insert_word_breaks [60] 0 = b "<wbr>&<wbr>l<wbr>t<wbr>;" /\ insert_word_breaks [60] 0 = b "<wbr>&lt;".
+Proof. vm_compute. split; reflexivity. Qed.
+
+(* apostrophe ( LF U+2028 lone-high a  ->  backslash-x27 ( backslash-n backslash-u2028 lone-high a ;
+   U+1F600 (D83D DE00) encodes as %F0%9F%98%80 ; a lone surrogate makes escapeUri throw ;
+   truncate backs out of a surrogate pair *)
+Example C16_js_nonvacuous :
+  u_escape_js_string [39; 40; 10; 8232; 55357; 97] = [92; 120; 50; 55; 40; 92; 110; 92; 117; 50; 48; 50; 56; 55357; 97]
+  /\ jsu_read 39 [92; 120; 50; 55; 40; 92; 110; 92; 117; 50; 48; 50; 56; 55357; 97] = Some [39; 40; 10; 8232; 55357; 97]
+  /\ jsu_read 39 [97; 39] = None /\ jsu_read 34 [8232] = None
+  /\ u_escape_uri [97; 32; 39; 55357; 56832] = Ok (b "a%20%27%F0%9F%98%80")
+  /\ (exists m, u_escape_uri [97; 55357] = Err m)
+  /\ u_truncate [97; 55357; 56832; 98] 2 false = [97]
+  /\ u_truncate [97; 98; 99; 100; 101; 102] 5 true = [97; 98; 46; 46; 46]
+  /\ u_insert_word_breaks [97; 60; 98; 99; 100] 2 = b "a&lt;<wbr>bc<wbr>d"
+  /\ u_change_newline_to_br [97; 13; 10; 60] = b "a<br>&lt;".
+Proof. vm_compute. repeat split; try reflexivity. eexists; reflexivity. Qed.
+
+(* ---------------- Go directive == JavaScript helper on the common domain ---------------- *)
+(* truncate counts bytes in Go and code units in JavaScript; on ASCII text and a non-negative limit they agree *)
+Theorem C16_truncate_go_js_agree_ascii : forall s n e, Forall (fun c => c < 128) s -> (0 <= n)%Z ->
+  truncate s n e = Ok (u_truncate s n e).
+Proof. exact truncate_agrees_ascii. Qed.
+Print Assumptions C16_truncate_go_js_agree_ascii.
